@@ -127,6 +127,11 @@ func checkMinMaxDist2(ctx *Ctx, r *Report, fn *ssa.Function, dim int, key string
 		return
 	}
 	mark := len(recOrder)
+	// (the eight vertex distances written out, or produced by an unrolled loop, give a larger
+	// term than the fold over Vertices(): room for it)
+	savedCap := termCap
+	termCap = 200000
+	defer func() { termCap = savedCap }()
 	ev := newEval(ctx, "Vertices")
 	res, _ := ev.evalRoot(fn)
 	iv, _ := res.(*Agg)
@@ -552,7 +557,11 @@ func checkUnionPrune(ctx *Ctx, r *Report) {
 				comp0 := strings.HasSuffix(c.Args[0].Key(), ")[0]")
 				run := c.Args[1]
 				stored := false
-				if run.Op == "a" {
+				if strings.Contains(run.Key(), "["+minIdx.Key()+"]") && strings.HasSuffix(run.Key(), "[0]") && rc.Init.IsZero() {
+					// the candidate is compared with the stored interval of the current holder, and the
+					// first operand is the initial holder (no sentinel needed)
+					stored = true
+				} else if run.Op == "a" {
 					if rd, ok := recs[run.S]; ok {
 						for _, s := range findSub(rd.Step, func(x *Term) bool { return x.Key() == c.Args[0].Key() }) {
 							_ = s
